@@ -876,12 +876,12 @@ fn check_invocation(
                         [&p2, p1].iter().any(|p| {
                             p.live_steps().any(|(si, _)| {
                                 sh.model.rec_for(p, si).map(|r| r.deps.contains(name)).unwrap_or(false)
-                                    && p.producer(name).map(|pi| pi != si && !p.order_anc(si).contains(&pi)).unwrap_or(false)
+                                    && p.producer(name).map(|pi| pi == si || !p.order_anc(si).contains(&pi)).unwrap_or(false)
                             })
                         })
                     });
                 if let Some(name) = &stale_gen_dep {
-                    v.push(viol("C06", "stale-record-generated-dep", format!("no command failed, yet the build is refused: a log record applies to a step that (in the current manifest) has no ordering path to {:?}, a generated file the record lists as discovered dependency: {}", name, err)));
+                    v.push(viol("C06", "stale-record-generated-dep", format!("no command failed, yet the build is refused: a log record applies to a step that (in the current manifest) has no ordering path to {:?} (or produces it itself), a generated file the record lists as discovered dependency: {}", name, err)));
                 }
                 let legit = any_fail || miss || nopool_any || cyc_final || bogus || sh.io_err_fired || sh.sigint_raised || stale_gen_dep.is_some();
                 // targets must be resolved against the regenerated manifest: rejecting a name
